@@ -19,6 +19,7 @@ use super::*;
 //@include prelude/strstruct_prims.rs
 //@include prelude/strstruct_db.rs
 //@include prelude/strstruct_prims2.rs
+//@include prelude/strstruct3_prims.rs
 } // mod pre
 use pre::*;
 broadcast use {lemma_fits, axiom_ts_n, axiom_te_n, axiom_pat_str, axiom_pat_char, axiom_out_str, axiom_get_from};
@@ -82,8 +83,9 @@ pub open spec fn op_has_deco(ls: Seq<Seq<char>>, d: int) -> bool { if d <= 0 { f
 // ---- get_completion_context_from_text: operational specification --------------------------------------------------------
 /// get_usefixtures_context_from_text / extract_fixture_scope_from_text (char-level paren counting and quote search with
 /// byte slicing: Kani's): left abstract, functions of (lines, index)
-pub uninterp spec fn usefx_ctx(ls: Seq<Seq<char>>, cur: int) -> Option<CtxV>;
-pub uninterp spec fn scope_txt(ls: Seq<Seq<char>>, d: int) -> Option<FixtureScope>;
+//@include prelude/strstruct3_spec.rs
+pub open spec fn usefx_ctx(ls: Seq<Seq<char>>, cur: int) -> Option<CtxV> { op_usefx_ctx(ls, cur) }
+pub open spec fn scope_txt(ls: Seq<Seq<char>>, d: int) -> Option<FixtureScope> { op_scope_txt(ls, d) }
 
 pub open spec fn def_lit() -> Seq<char> { "def "@ }
 pub open spec fn async_lit() -> Seq<char> { "async def "@ }
@@ -233,17 +235,9 @@ pub proof fn lemma_lits()
 }
 
 impl FixtureDatabase {
-    // callees left abstract (see usefx_ctx / scope_txt)
-    #[verifier::external_body]
-    fn get_usefixtures_context_from_text(lines: &[&str], cursor_idx: usize) -> (r: Option<CompletionContext>)
-        requires cursor_idx < lines@.len(),
-        ensures opt_ccv(r) == usefx_ctx(sv(lines@), cursor_idx as int),
-    { unimplemented!() }
-    #[verifier::external_body]
-    fn extract_fixture_scope_from_text(lines: &[&str], def_line_idx: usize) -> (r: Option<FixtureScope>)
-        requires def_line_idx < lines@.len(),
-        ensures r == scope_txt(sv(lines@), def_line_idx as int),
-    { unimplemented!() }
+    // callees: the contracts PROVED in unit strings_struct3 (composition)
+//@stub strings_struct3 get_usefixtures_context_from_text
+//@stub strings_struct3 extract_fixture_scope_from_text
 
 /*@ extract src/fixtures/resolver.rs get_completion_context_from_text
 @tags C18 C11 C12
@@ -259,6 +253,12 @@ impl FixtureDatabase {
 @sig
     requires chars_upto(lines_v(content@), lines_v(content@).len() as int) <= i32::MAX,
     ensures opt_ccv(r) == op_text_ctx(content@, target_line),
+@before cursor_idx 2
+    proof {
+        lemma_chars_upto_mono(ls, 0, sat_sub(cursor_idx as int, 10));
+        lemma_chars_upto_mono(ls, cursor_idx + 1, ls.len() as int);
+        assert(ufx_fits(ls, cursor_idx as int));
+    }
 @before if 2
     let ghost ls = sv(lines@);
     proof {
